@@ -6,10 +6,18 @@
                                                -> ok <clone IR> <clone temporaries> <original IR> <original temporaries>
                                                      <output value, separate> <output value, aliased>
        ops (comma separated) act on an unnamed program object P and its clones: i = pass.Indexes(P),
-       r = pass.ReadCounts(P), a = Allocator A on P, c = clone the latest clone (or P), b = Allocator B
-       on the latest clone.  Every object is allocated at most once and the last clone is allocated.
-       ir.Program.Clone copies the instructions and no pass results, so the clone's allocation is
-       that of a fresh program whatever ran on P, and P is unaffected by work on the clone.
+       r = pass.ReadCounts(P), a / x = Allocator A / B on P, c = clone the latest clone (or P),
+       y / b = Allocator A / B on the latest clone.  The last clone is allocated at least once.
+       ir.Program.Clone copies the instructions and no pass results, and every run of the allocator
+       clears all identifiers and starts the temporaries list afresh: an object's state is the
+       allocation of the fresh program under the configuration LAST applied to it, whatever ran
+       before on it or on the object it was cloned from.
+     multi <sources> <IR1|IR2|...> <cfg1|cfg2|...> <k:c,k:c,...>
+                                               -> ok <IR~temporaries~value separate~value aliased> per program, joined by '|'
+       several program objects (built by the real producers from <sources>, which the model ignores;
+       their instructions are the given IRs); event k:c runs the Allocator with configuration c on
+       program k; every program is allocated at least once.  Programs share nothing, so each one ends
+       as the allocation under the configuration last applied to it, whatever happened to the others.
    IR: instructions joined by ';' ('-' = no instruction): a<out>:<x>,<y> | d<out>:<x> | s<out>:<x>:<n>;
    operand: decimal index, optionally followed by '@' and the identifier as hex pairs. *)
 From Coq Require Import String.
@@ -112,16 +120,20 @@ Definition unnamed_operand (o : operand) : bool := match oname o with [] => true
 Definition unnamed_instr (i : instr) : bool :=
   unnamed_operand (iout i) && forallb unnamed_operand (inputs (iopn i)).
 
-(* history bookkeeping: (original allocated, a clone exists, latest clone allocated); None = not a valid history *)
-Definition hist_step (st : option (bool * bool * bool)) (op : list N) : option (bool * bool * bool) :=
+(* history bookkeeping: (configuration last applied to the original, a clone exists, configuration
+   last applied to the latest clone); false = A, true = B; None = not a valid history *)
+Definition hist_step (st : option (option bool * bool * option bool)) (op : list N)
+  : option (option bool * bool * option bool) :=
   match st with
   | None => None
   | Some (oa, hc, ca) =>
       if str_eqb op $"i" then st
       else if str_eqb op $"r" then st
-      else if str_eqb op $"a" then (if oa then None else Some (true, hc, ca))
-      else if str_eqb op $"c" then Some (oa, true, false)
-      else if str_eqb op $"b" then (if hc && negb ca then Some (oa, hc, true) else None)
+      else if str_eqb op $"a" then Some (Some false, hc, ca)
+      else if str_eqb op $"x" then Some (Some true, hc, ca)
+      else if str_eqb op $"c" then Some (oa, true, None)
+      else if str_eqb op $"b" then (if hc then Some (oa, hc, Some true) else None)
+      else if str_eqb op $"y" then (if hc then Some (oa, hc, Some false) else None)
       else None
   end.
 
@@ -134,18 +146,20 @@ Definition print_run (outp : list N) (o : outcome machine) : list N :=
   end.
 
 Definition run_history (p : iprogram) (ca cb : alloc_cfg) (ops : list (list N)) : list N :=
-  match fold_left hist_step ops (Some (false, false, false)) with
-  | Some (oa, true, true) =>
+  let pick (b : bool) := if b then cb else ca in
+  match fold_left hist_step ops (Some (None, false, None)) with
+  | Some (oa, true, Some cl) =>
       if forallb unnamed_instr p then
-        match allocate cb p with
+        let cc := pick cl in
+        match allocate cc p with
         | Ok (q, tb) =>
-            let orig := if oa then allocate ca p else Ok (p, []) in
+            let orig := match oa with Some o => allocate (pick o) p | None => Ok (p, []) end in
             match orig with
             | Ok (po, ta) =>
                 r_ok (print_ir q ++ [sp] ++ print_list print_bytes tb ++ [sp]
                       ++ print_ir po ++ [sp] ++ print_list print_bytes ta ++ [sp]
-                      ++ print_run (cfg_out cb) (run_interp Separate (cfg_in cb) (cfg_out cb) 1 q) ++ [sp]
-                      ++ print_run (cfg_out cb) (run_interp Aliased (cfg_in cb) (cfg_out cb) 1 q))
+                      ++ print_run (cfg_out cc) (run_interp Separate (cfg_in cc) (cfg_out cc) 1 q) ++ [sp]
+                      ++ print_run (cfg_out cc) (run_interp Aliased (cfg_in cc) (cfg_out cc) 1 q))
             | e => print_outcome (fun _ => []) e
             end
         | e => print_outcome (fun _ => []) e
@@ -154,10 +168,73 @@ Definition run_history (p : iprogram) (ca cb : alloc_cfg) (ops : list (list N)) 
   | _ => r_badcase
   end.
 
+Definition bar : N := 124.
+Definition tilde : N := 126.
+
+Definition parse_event (s : list N) : option (nat * nat) :=
+  match split colon s with
+  | [k; c] => match parse_nat k, parse_nat c with Some a, Some b => Some (a, b) | _, _ => None end
+  | _ => None
+  end.
+
+Fixpoint set_at {A} (l : list A) (k : nat) (x : A) : list A :=
+  match l, k with
+  | [], _ => []
+  | _ :: t, O => x :: t
+  | h :: t, S k' => h :: set_at t k' x
+  end.
+
+(* run the events in order; the first failing allocation is the result of the whole case *)
+Fixpoint multi_events (ps : list iprogram) (cs : list alloc_cfg) (evs : list (nat * nat))
+  (last : list (option alloc_cfg)) : option (outcome (list (option alloc_cfg))) :=
+  match evs with
+  | [] => Some (Ok last)
+  | (k, c) :: r =>
+      match nth_error ps k, nth_error cs c with
+      | Some p, Some cfg =>
+          match allocate cfg p with
+          | Ok _ => multi_events ps cs r (set_at last k (Some cfg))
+          | Err e => Some (Err e)
+          | Panic e => Some (Panic e)
+          | OutOfFuel => Some OutOfFuel
+          end
+      | _, _ => None
+      end
+  end.
+
+Definition print_final (pc : iprogram * option alloc_cfg) : option (list N) :=
+  match pc with
+  | (p, Some cfg) =>
+      match allocate cfg p with
+      | Ok (q, t) =>
+          Some (print_ir q ++ [tilde] ++ print_list print_bytes t ++ [tilde]
+                ++ print_run (cfg_out cfg) (run_interp Separate (cfg_in cfg) (cfg_out cfg) 1 q) ++ [tilde]
+                ++ print_run (cfg_out cfg) (run_interp Aliased (cfg_in cfg) (cfg_out cfg) 1 q))
+      | _ => None
+      end
+  | (_, None) => None
+  end.
+
+Definition run_multi (ps : list iprogram) (cs : list alloc_cfg) (evs : list (nat * nat)) : list N :=
+  match multi_events ps cs evs (map (fun _ => None) ps) with
+  | Some (Ok last) =>
+      match map_opt print_final (combine ps last) with
+      | Some (x :: xs) => r_ok (join [bar] (x :: xs))
+      | _ => r_badcase
+      end
+  | Some e => print_outcome (fun _ => []) e
+  | None => r_badcase
+  end.
+
 Definition run (line : list N) : list N :=
   match split sp line with
   | [f; ir; i; o; fm] =>
-      if str_eqb f $"history" then
+      if str_eqb f $"multi" then
+        match map_opt parse_ir (split bar i), map_opt parse_cfg (split bar o), parse_list parse_event fm with
+        | Some ps, Some cs, Some evs => run_multi ps cs evs
+        | _, _, _ => r_badcase
+        end
+      else if str_eqb f $"history" then
         match parse_ir ir, parse_cfg i, parse_cfg o, parse_list (fun x => Some x) fm with
         | Some p, Some ca, Some cb, Some ops => run_history p ca cb ops
         | _, _, _, _ => r_badcase
